@@ -134,10 +134,11 @@ static int gen_table_verifier(fb_output_t *out, fb_compound_type_t *ct)
                         "%u, 0, %"PRIu16", %s_verify_table)",
                         member->id, required, member->align, snref.text);
                 } else {
+                    /* The size and alignment of the nested struct, not of the ubyte elements that hold it. */
                     fprintf(out->fp,
                         "flatcc_verify_struct_as_nested_root(td, %"PRIu64", "
                         "%u, 0, %"PRIu64",  %"PRIu16")",
-                        member->id, required, member->size, member->align);
+                        member->id, required, (uint64_t)member->nest->size, member->nest->align);
                 }
             } else {
                 fprintf(out->fp,
